@@ -974,11 +974,20 @@ class Unit:
         body_text = src.text[body_lo:body_hi]
         for c in clauses:
             if c[0] in ('after', 'before'):
-                mm = re.match(r'`(.*?)`(?:#(\d+))?\s*:\s*(.*)$', c[1], re.S)
+                mm = re.match(r'`(.*?)`(?:#(\d+|\*))?\s*:\s*(.*)$', c[1], re.S)
                 if not mm:
                     raise GenError('%s:%d bad hint' % (tplpath, c[2]))
                 hits = list(flex_regex(mm.group(1)).finditer(body_text))
-                if mm.group(2) is not None:
+                if mm.group(2) == '*':
+                    # `#*`: the same hint at EVERY occurrence of the anchor (one or more); robust against an occurrence disappearing
+                    if hits:
+                        for h1 in hits:
+                            off = body_lo + (h1.end() if c[0] == 'after' else h1.start())
+                            txt = mm.group(3)
+                            edits.append(Edit(off, off, (' ' + txt + ' ') if c[0] == 'after' else (txt + ' '), ('spec', tplpath, c[2], c[3]), prio=3))
+                        rec.n_hints += 1
+                        continue
+                elif mm.group(2) is not None:
                     hits = hits[int(mm.group(2)):int(mm.group(2)) + 1]
                 if len(hits) != 1:
                     # a proof hint whose anchor statement is gone (or became ambiguous) is DROPPED, not fatal: the obligations stay,
